@@ -79,7 +79,22 @@ func (g *gen) fresh() string {
 }
 
 func (g *gen) okTx() string {
-	return ordinaryKeys[g.rng.Intn(len(ordinaryKeys))] + "=" + g.value()
+	k, v := ordinaryKeys[g.rng.Intn(len(ordinaryKeys))], g.value()
+	// one transaction in eight carries white space around key or value (the trailing newline of a posted body, a
+	// blank after '='): every path that decodes a transaction must treat it alike
+	switch g.rng.Intn(32) {
+	case 0:
+		v += "\n"
+	case 1:
+		v = " " + v + " "
+	case 2:
+		k = " " + k
+		v = "\t" + v
+	case 3:
+		k += " "
+		v += "\r\n"
+	}
+	return k + "=" + v
 }
 
 func (g *gen) block(region string) Block {
@@ -147,6 +162,7 @@ func (g *gen) ops(h *History, policy string) []Op {
 	}
 	executed := uint64(0) // exec ops issued so far (used only to pick plausible SetFinal heights)
 	lateAt := n/2 + rng.Intn(n-n/2)
+	nextBlock := 0
 	aux := func(max int) {
 		for k := rng.Intn(max + 1); k > 0; k-- {
 			switch p := rng.Intn(100); {
@@ -155,6 +171,12 @@ func (g *gen) ops(h *History, policy string) []Op {
 				tx := g.okTx()
 				if rng.Intn(5) == 0 {
 					tx = badTxs[rng.Intn(len(badTxs))]
+				}
+				if rng.Intn(3) == 0 && nextBlock < n && len(h.Blocks[nextBlock].Txs) > 0 {
+					// this instance is the one whose mempool the transaction came from (the proposer): the very bytes of a
+					// transaction of the block it is about to execute pass through its mempool first
+					bt := h.Blocks[nextBlock].Txs
+					tx = bt[rng.Intn(len(bt))]
 				}
 				ops = append(ops, Op{K: "inject", Tx: tx})
 			case p < 50:
@@ -201,6 +223,7 @@ func (g *gen) ops(h *History, policy string) []Op {
 		}
 	}
 	for i, b := range h.Blocks {
+		nextBlock = i
 		if i == initAt {
 			ops = append(ops, Op{K: "init"})
 			if rng.Intn(3) == 0 {
